@@ -2,6 +2,7 @@ package main
 
 import (
 	"fmt"
+	"go/token"
 	"go/types"
 	"sort"
 	"strings"
@@ -72,12 +73,16 @@ func runInventory(w *World, what string) {
 	}
 }
 
-// fieldOwner names the struct type declaring a field ("" if anonymous).
+// fieldOwner names the struct type declaring a field ("" if anonymous). When
+// several named types share the struct (type Alias T), the one whose
+// declaration encloses the field is chosen.
 func fieldOwner(w *World, f *types.Var) string {
 	if f == nil || f.Pkg() == nil {
 		return ""
 	}
 	sc := f.Pkg().Scope()
+	best := ""
+	var bestPos token.Pos
 	for _, n := range sc.Names() {
 		tn, ok := sc.Lookup(n).(*types.TypeName)
 		if !ok {
@@ -89,11 +94,15 @@ func fieldOwner(w *World, f *types.Var) string {
 		}
 		for i := 0; i < st.NumFields(); i++ {
 			if st.Field(i) == f {
-				return n
+				if tn.Pos() < f.Pos() && tn.Pos() > bestPos {
+					best, bestPos = n, tn.Pos()
+				} else if best == "" {
+					best = n
+				}
 			}
 		}
 	}
-	return ""
+	return best
 }
 
 func inventoryC06(w *World) {
